@@ -277,15 +277,34 @@ def run(ctx):
             tindex[cur] = [i, len(lines)]
     if set(tindex) != set(index):
         raise vlib.Inconclusive("the trace has %d histories, the script %d" % (len(tindex), len(index)))
+    notes = {}
+    cur = None
     for ln in lines:
-        if ln["ev"] == "ret" and ln.get("err"):
-            raise vlib.Inconclusive("a request failed in the driver: %s" % ln["err"])
+        if ln["ev"] == "reset":
+            cur = ln["h"]
+        elif ln["ev"] == "note":
+            notes[cur] = ln.get("panics", [])
+        elif ln["ev"] == "ret" and ln.get("err"):
+            if any(x in ln["err"] for x in ("DeadlineExceeded", "Canceled", "Unavailable")):
+                raise vlib.Inconclusive("a request timed out in the driver: %s" % ln["err"])
+            ln["st"] = "ERROR"                      # an error status for a well-formed request: no spec state expects it
+    # notes are observations about a history (recovered server panics), not steps of the spec
+    keep = [i for i, ln in enumerate(lines) if ln["ev"] != "note"]
+    lines = [lines[i] for i in keep]
+    tindex, cur = {}, None
+    for i, ln in enumerate(lines):
+        if ln["ev"] == "reset":
+            if cur is not None:
+                tindex[cur][1] = i
+            cur = ln["h"]
+            tindex[cur] = [i, len(lines)]
     nsend = sum(1 for x in lines if x["ev"] == "sb")
     ctx.extra["histories"] = len(index)
     ctx.extra["trace_lines"] = len(lines)
     ctx.extra["events_sent"] = nsend
     ctx.extra["sends_begun_while_another_in_flight"] = sum(1 for x in lines if x["ev"] == "sb" and x["infl"] > 0)
     ctx.extra["calls"] = sum(1 for x in lines if x["ev"] == "call")
+    ctx.extra["histories_with_recovered_server_panic"] = len(notes)
 
     # 3. one TLC run: every line of every history against the strict spec and every set of open deviations
     open_devs = [DEV_OF[f] for f in (F_TIME, F_NOOP, F_CONC, F_DEL) if ctx.is_known(f)]
@@ -320,8 +339,9 @@ def run(ctx):
                     h, json.dumps(first, sort_keys=True), "+".join(DEV_OF[x] for x in explained[h])), hist_obj(h))
         else:
             ln = lines[stuck[h]]
+            extra = (" | the server recovered from a panic while serving this history: %s" % " ## ".join(notes[h])[:900]) if notes.get(h) else ""
             ctx.deviation(None, "history %d: no state of the spec explains line %s (after %d lines of the history) and no set of named "
-                                "deviations explains the history" % (h, json.dumps(ln, sort_keys=True), stuck[h] - tindex[h][0]), hist_obj(h))
+                                "deviations explains the history%s" % (h, json.dumps(ln, sort_keys=True), stuck[h] - tindex[h][0], extra), hist_obj(h))
 
     # 5. accounting
     for h in index:
